@@ -5,6 +5,12 @@ VERIF = os.path.dirname(os.path.dirname(os.path.abspath(__file__)))
 ALL = ["C%02d" % i for i in range(1, 21)]
 
 CHECKS = {
+ "C05": dict(engine="S", technique="stateless model checking of the real code: cooperative scheduler over interposed pthread ops, iterative preemption-bounded DFS of all interleavings, fork per execution; ThreadSanitizer on every explored schedule",
+   text="All interleavings (up to the completed preemption/deviation bound) of submit/status/cancel/cleanup scripts with worker progress are executed on the real ThreadPool/WorkThread; every schedule is judged by exactly-once/answer-consistency/pick-order/thread-limit oracles, deadlock = cleanup never returns, and each schedule is also race-checked by TSan. Finds lost wake-ups and check-then-act windows that need one specific preemption.",
+   note="Trusted: the scheduler model of mutex/condvar semantics (cond wait = 2 steps, signal chooses a waiter), TSan/ASan, FakeLoop; bounds: <=4 threads, <=3 tasks, preemption bound 2 (quick) / 3 (thorough).", ref="2/C05"),
+ "C10": dict(engine="S", technique="stateless model checking of the real AsyncPipe under the cooperative scheduler: preemption-bounded DFS of all interleavings of producers, background thread, timed flush (deviation) and cleanup; TSan on every schedule",
+   text="Every interleaving up to the bound of 1-3 producers, the background thread's timed wait expiring or not, and cleanup is executed on the real class for buffer sizes 1/2/4 and min/max buffer counts; the concatenated sink output must be an interleaving of contiguous appends in producer order, complete at cleanup return; deadlock/livelock detection covers 'cleanup always terminates'.",
+   note="Trusted: scheduler model (timed wait may expire at any point: deviation), TSan/ASan; appends concurrent with cleanup are outside the property.", ref="2/C10"),
  "C07": dict(engine="H", technique="explicit-state BFS over operation histories on the real util::Buffer, canonical-state dedup, std::deque reference model + ASan/UBSan oracle",
    text="Every history of buffer operations up to the stated depth from every initial capacity is executed on the real class and compared with a deque after each step; exhaustive within depth/size bounds, so position/compaction/growth errors that need a particular prefix cannot hide.",
    note="Trusted: g++ ASan/UBSan, the 40-line reference model; bounded depth (capacity doubling means no fixpoint).", ref="2/C07"),
